@@ -15,6 +15,8 @@ Judge(e) == LET p == Parse(e.line)
             IN /\ e.kind = p.kind
                /\ e.n = p.n
                /\ e.addr_ok /\ e.err_ok /\ e.round_ok
+               /\ e.input_ok      \* the call did not write to its input (HostsLineMem!InputUntouched)
+               /\ e.again_ok      \* a second parse of the same buffer gives the same result
                /\ RoundTrip(e.line)
 
 TInit == l = 1 /\ line = <<>>
